@@ -1,6 +1,7 @@
 package main
 
 import (
+	"context"
 	"crypto/sha256"
 	"encoding/json"
 	"fmt"
@@ -368,6 +369,52 @@ func runC11(c *mon.Ctx) {
 					}
 					checkOrdering(c, "LineariseStateResponse", in, lin, true)
 				}
+				// RequestBackfill: two servers answer with overlapping, shuffled slices of the room's
+				// events (messages included); the result must be an ancestors-first permutation of the
+				// distinct events that pass the auth checks
+				{
+					var timeline []gmsl.PDU
+					timeline = append(timeline, sc.authAll...)
+					bf := &stubBackfiller{stubStateProvider: stubStateProvider{state: map[string]gmsl.PDU{}}, pool: sc.s.all}
+					for _, p := range sc.stateSets[0] {
+						bf.ids = append(bf.ids, p.EventID())
+						bf.state[p.EventID()] = p
+					}
+					half := len(timeline) * 2 / 3
+					a, b2 := shufflePDUs(pr, timeline[:half]), shufflePDUs(pr, timeline[len(timeline)-half:])
+					for _, p := range a {
+						bf.txns = append(bf.txns, nil)
+						bf.txns[0] = append(bf.txns[0], json.RawMessage(p.JSON()))
+					}
+					bf.txns = bf.txns[:1]
+					var second []json.RawMessage
+					for _, p := range b2 {
+						second = append(second, json.RawMessage(p.JSON()))
+					}
+					bf.txns = append(bf.txns, second)
+					var out []gmsl.PDU
+					var err error
+					site, msg, pan := mon.Guard(func() {
+						out, err = gmsl.RequestBackfill(context.Background(), "me.example", bf, c14ring, sc.s.roomID, ver, []string{timeline[len(timeline)-1].EventID()}, 10000, userIDForSender)
+					})
+					if pan {
+						c.Failf("ordering:panic:"+site, "RequestBackfill panics: %s", msg)
+					} else if err == nil {
+						// the inputs of the ordering are exactly the returned events; check the order and distinctness
+						checkOrdering(c, "RequestBackfill", out, out, false)
+						seen := map[string]bool{}
+						for _, p := range out {
+							if seen[p.EventID()] {
+								c.Failf("ordering:duplicate:RequestBackfill", "RequestBackfill returned %s twice although two servers sent it", p.EventID())
+							}
+							seen[p.EventID()] = true
+							if _, ok := sc.s.all[p.EventID()]; !ok {
+								c.Failf("ordering:foreign-event:RequestBackfill", "RequestBackfill returned an event no server sent")
+							}
+						}
+						c.Count("backfills")
+					}
+				}
 				if c.WantSample() && nConfKeys >= 2 && len(sc.s.trace) < 30 {
 					b, _ := json.Marshal(short(idsOf(base)))
 					c.Sample(map[string]any{"version": ver, "history": sc.s.trace, "resolved": json.RawMessage(b), "presentations_tried": 13})
@@ -378,6 +425,31 @@ func runC11(c *mon.Ctx) {
 	c.Floor("resolutions", 100)
 	c.Floor("orderings_checked", 500)
 	c.Floor("presentation|all", 100)
+}
+
+type stubBackfiller struct {
+	stubStateProvider
+	pool map[string]gmsl.PDU
+	txns [][]json.RawMessage
+	next int
+}
+
+func (b *stubBackfiller) Backfill(ctx context.Context, origin, server spec.ServerName, roomID string, limit int, fromEventIDs []string) (gmsl.Transaction, error) {
+	i := b.next % len(b.txns)
+	b.next++
+	return gmsl.Transaction{Origin: server, PDUs: b.txns[i]}, nil
+}
+func (b *stubBackfiller) ServersAtEvent(ctx context.Context, roomID, eventID string) []spec.ServerName {
+	return []spec.ServerName{"origin.example", "other.example"}
+}
+func (b *stubBackfiller) ProvideEvents(roomVer gmsl.RoomVersion, eventIDs []string) ([]gmsl.PDU, error) {
+	var out []gmsl.PDU
+	for _, id := range eventIDs {
+		if p, ok := b.pool[id]; ok {
+			out = append(out, p)
+		}
+	}
+	return out, nil
 }
 
 // splitLikeCaller splits a flat event list the way the deprecated ResolveConflicts does.
